@@ -88,6 +88,9 @@ def exact_equal(a, b):
     return bool(np.array_equal(a, b))
 
 
+EXTRA_NAMES = ["upward", "time", "azimuth"]  # deliberately not in alphabetical order
+
+
 def default_names(n):
     return [("scalars",), ("east_component", "north_component"), ("east_component", "north_component", "vertical_component")][n - 1]
 
@@ -111,7 +114,7 @@ def build_inputs(case):
     coords = tuple(coords + extras)
     data = tuple(lay(values(case, k).ravel(), shp, dtype="int64" if case["int_data"] else "float64") for k in range(case["nvars"]))
     names = case["names"] if case["names"] is not None else (list(default_names(case["nvars"])) if case["nvars"] else None)
-    extra_names = ["extra%d" % k for k in range(case["nextra"])] if case["nextra"] else None
+    extra_names = EXTRA_NAMES[: case["nextra"]] if case["nextra"] else None
     return coords, data, names, extra_names
 
 
@@ -205,7 +208,7 @@ def check_table(case, ctx):
     for name, vals in order:
         cdict[name] = vals
     for k, ex in enumerate(extras):
-        cdict["extra%d" % k] = (dims, ex)
+        cdict[EXTRA_NAMES[k]] = (dims, ex)
     ee, nn = np.meshgrid(east, north)
     if case["kind"] == "dataset":
         items = list(zip(names, data))
@@ -227,7 +230,7 @@ def check_table(case, ctx):
     ctx.check(np.array_equal(table[dims[1]].values, ee.ravel()), "easting column is not each cell's easting")
     ctx.check(np.array_equal(table[dims[0]].values, nn.ravel()), "northing column is not each cell's northing")
     for k, ex in enumerate(extras):
-        ctx.check(np.array_equal(table["extra%d" % k].values, ex.ravel()), "extra coordinate column misplaced")
+        ctx.check(np.array_equal(table[EXTRA_NAMES[k]].values, ex.ravel()), "extra coordinate column %s does not hold that coordinate's values", EXTRA_NAMES[k])
     ctx.label(case["kind"], "coords_" + case["coord_order"], "extra%d" % case["nextra"])
     ctx.nt(case["nr"] >= 2 and case["nc"] >= 2 and case["nr"] != case["nc"])
 
